@@ -207,7 +207,7 @@ class LPred:
         return MISSING
 
 
-def l_reshape(interp, t: LTen, shp, opname="reshape"):
+def _l_reshape_impl(interp, t: LTen, shp, opname="reshape"):
     """reshape/view restricted to regroupings that are the identity on (lead.., flat-in-tail) addressing."""
     cx = interp.cx
     src = t.shape
@@ -299,6 +299,19 @@ def lten_getitem(interp, t: LTen, idx):
         cx.oblige("prim.index.in_range", z3.And(0 <= i, i < lift(t.shape.lead[0])), kind="prim")
         return LTen(V.Shape(t.shape.lead[1:], t.shape.tail), lambda ix: t.elem([i] + list(ix)), storage=t.storage, fresh=t.fresh)
     return MISSING
+
+
+def l_reshape(interp, t, shp, name="reshape"):
+    """x.view(...) is always a view of x; x.reshape(...) is a view when the strides of x allow it and a COPY otherwise [T].
+    For a tensor whose memory layout the program does not control (an existing .grad field) both cases are explored."""
+    r = _l_reshape_impl(interp, t, shp, name)
+    g = getattr(t, "grad_of", None)
+    if g is not None and isinstance(r, LTen):
+        if name == "view" or interp.cx.branch(interp.cx.fresh_bool("reshape_is_a_view")):
+            r.grad_of = g
+        else:
+            r = LTen(r.shape, r.elem, fresh=True)
+    return r
 
 
 def _alias(t):
